@@ -788,6 +788,11 @@ def step (c : CaseSt) (line : String) : Option String × CaseSt :=
   | ["prefix", p] =>
     let d := (p.splitOn "/").filter (· != "")
     (none, { c with pfxDirs := d, pfx := d })
+  | ["linkprefix", p] =>
+    -- the first directory of the prefix is a symlink on the implementation's side: for the model
+    -- the root is where the client says it is
+    let d := (p.splitOn "/").filter (· != "")
+    (none, { c with pfxDirs := d, pfx := d })
   | ["rootname", n] => (none, { c with rootName := n })
   | ["hint", "evicted", o] =>
     (none, { c with evicted := if o == "-" then [] else (o.splitOn ",").map pathOf })
